@@ -171,6 +171,12 @@ class FakeHidDevice:
             if r is None:
                 # device does not answer (e.g. it left the bus after EXIT)
                 how = link.device.silence_kind()
+                if kind in ("timeout_before", "timeout_after"):
+                    link.stats.fault(kind)
+                    how = "timeout"
+                elif kind in ("read_err_before", "read_err_after"):
+                    link.stats.fault(kind)
+                    how = "read_err"
                 link.tlog("xchg", idx, apdu, "noanswer", how)
                 self.pending = how
                 return len(data)
